@@ -363,6 +363,14 @@ func (ex *Exec) applyContract(fr *Frame, name string, sig *types.Signature, ct *
 	}
 	old := st.clone()
 	env.old = old
+	// results (created first so that the frame may mention them)
+	rt := resultType(sig)
+	var rets []Val
+	rs := sig.Results()
+	for k := 0; k < rs.Len(); k++ {
+		nm := fmt.Sprintf("ret%d$%s", k, shortName(name))
+		rets = append(rets, freshVal(nm, rs.At(k).Type()))
+	}
 	// frame
 	func() {
 		defer func() {
@@ -387,6 +395,11 @@ func (ex *Exec) applyContract(fr *Frame, name string, sig *types.Signature, ct *
 		} else {
 			envOld := *env
 			envOld.cur = old
+			envOld.vars = map[string]specBinding{}
+			for k, v := range env.vars {
+				envOld.vars[k] = v
+			}
+			ex.bindResults(ct, sig, rets, &envOld)
 			for _, a := range ct.Assigns {
 				for _, loc := range ex.evalLocs(a, &envOld) {
 					ex.havocLoc(st, loc)
@@ -402,14 +415,8 @@ func (ex *Exec) applyContract(fr *Frame, name string, sig *types.Signature, ct *
 		pc = And(pc, IntOp("<=", st.now, n))
 		st.now = n
 	}
-	rt := resultType(sig)
-	var rets []Val
-	rs := sig.Results()
 	for k := 0; k < rs.Len(); k++ {
-		nm := fmt.Sprintf("ret%d$%s", k, shortName(name))
-		v := freshVal(nm, rs.At(k).Type())
-		rets = append(rets, v)
-		pc = And(pc, ex.wfVal(rs.At(k).Type(), v, st.now))
+		pc = And(pc, ex.wfVal(rs.At(k).Type(), rets[k], st.now))
 	}
 	env.cur = st
 	func() {
@@ -593,14 +600,14 @@ func (ex *Exec) havocLoc(st *State, loc Loc) {
 		compSorts[loc.comp] = loc.sort
 		v := Fresh("H$"+loc.comp, loc.sort)
 		st.comp[loc.comp] = v
-		ex.noteWrite(loc.comp)
+		ex.noteWriteAt(loc.comp, nil)
 		return
 	}
 	c := ex.get(st, loc.comp, loc.sort)
 	_, inner := arrParts(loc.sort)
 	if loc.lo == nil {
 		f := Fresh("hv$"+loc.comp, inner)
-		ex.set(st, loc.comp, Store(c, loc.ref, f))
+		ex.setAt(st, loc.comp, Store(c, loc.ref, f), loc.ref)
 		return
 	}
 	// element range
@@ -609,7 +616,7 @@ func (ex *Exec) havocLoc(st *State, loc Loc) {
 	k := Bound("k", BV(64))
 	outside := Or(BVCmp("bvslt", k, loc.lo), BVCmp("bvsle", loc.hi, k))
 	ex.pendingAssume = append(ex.pendingAssume, Forall([]*Term{k}, Implies(outside, Eq(Select(na, k), Select(oldA, k))), Select(na, k)))
-	ex.set(st, loc.comp, Store(c, loc.ref, na))
+	ex.setAt(st, loc.comp, Store(c, loc.ref, na), loc.ref)
 }
 
 // ------------------------------------------------------------------ defers
@@ -632,10 +639,10 @@ func (ex *Exec) runDefers(fr *Frame, st *State, pc *Term) *Term {
 		if b, isB := d.Call.Value.(*ssa.Builtin); isB {
 			_, rpc = ex.builtin(fr, b, &d.Call, args, run, cpc, d.Pos())
 		} else if d.Call.IsInvoke() {
-			recv := ex.asIface(st.extra[k+":fn"])
+			recv := ex.asIface(fr.deferFns[i])
 			_, rpc = ex.invoke(fr, recv, d.Call.Value.Type(), d.Call.Method, args, run, cpc, d.Pos())
 		} else {
-			_, rpc = ex.callValue(fr, st.extra[k+":fn"], d.Call.Value.Type(), args, run, cpc, d.Pos())
+			_, rpc = ex.callValue(fr, fr.deferFns[i], d.Call.Value.Type(), args, run, cpc, d.Pos())
 		}
 		if len(ex.pendingAssume) > 0 {
 			rpc = And(append([]*Term{rpc}, ex.pendingAssume...)...)
@@ -709,9 +716,9 @@ func (ex *Exec) builtin(fr *Frame, b *ssa.Builtin, c *ssa.CallCommon, args []Val
 			hs := ArrSort(SRef, ArrSort(ks, SBool))
 			hc := ex.get(st, has, hs)
 			was := And(Neq(m, Null), Select(Select(hc, m), k))
-			ex.set(st, has, Store(hc, m, Store(Select(hc, m), k, False)))
+			ex.setAt(st, has, Store(hc, m, Store(Select(hc, m), k, False)), m)
 			lc := ex.get(st, ln, ArrSort(SRef, BV(64)))
-			ex.set(st, ln, Store(lc, m, Ite(was, BVOp("bvsub", Select(lc, m), BVu(1, 64)), Select(lc, m))))
+			ex.setAt(st, ln, Store(lc, m, Ite(was, BVOp("bvsub", Select(lc, m), BVu(1, 64)), Select(lc, m))), m)
 			return TupleV{}, pc
 		}
 	case "print", "println":
@@ -757,7 +764,7 @@ func (ex *Exec) copyElems(st *State, et types.Type, darr, doff *Term, src *Slice
 				k := BVu(uint64(i), 64)
 				na = Store(na, BVOp("bvadd", doff, k), Select(srcA, BVOp("bvadd", src.Off, k)))
 			}
-			ex.set(st, name, Store(c, darr, na))
+			ex.setAt(st, name, Store(c, darr, na), darr)
 			continue
 		}
 		na := Fresh("cp$"+name, inner)
@@ -765,7 +772,7 @@ func (ex *Exec) copyElems(st *State, et types.Type, darr, doff *Term, src *Slice
 		in := And(BVCmp("bvsle", doff, k), BVCmp("bvslt", k, BVOp("bvadd", doff, n)))
 		val := Ite(in, Select(srcA, BVOp("bvadd", src.Off, BVOp("bvsub", k, doff))), Select(oldA, k))
 		ex.pendingAssume = append(ex.pendingAssume, Forall([]*Term{k}, Eq(Select(na, k), val), Select(na, k)))
-		ex.set(st, name, Store(c, darr, na))
+		ex.setAt(st, name, Store(c, darr, na), darr)
 	}
 }
 
